@@ -378,7 +378,9 @@ func checkC14(c *Ctx, p *Prog, r *Result) {
 		// MacAlg.KeySize only under MacAlg != 0
 		rs := &RuleSet{Atoms: []AtomDef{notEqualConst("mac-present", "MacAlg != 0", 0, hasProv("field:fdo/kex.CipherSuite.MacAlg"))}}
 		f := NewFlow(p, rs, []*ssa.Function{fn}, func(g *ssa.Function) bool { return g != fn })
-		for _, ks := range f.CallSites(func(cal Callee, c2 ssa.CallInstruction) bool { return cal.Name == "fdo/cose.MacAlgorithm.KeySize" && c2.Parent() == fn }) {
+		for _, ks := range f.CallSites(func(cal Callee, c2 ssa.CallInstruction) bool {
+			return cal.Name == "fdo/cose.MacAlgorithm.KeySize" && c2.Parent() == fn
+		}) {
 			if !f.StateAt(ks).Has("mac-present") {
 				problems = append(problems, "MacAlg.KeySize() is not guarded by MacAlg != 0")
 			}
@@ -803,7 +805,9 @@ func checkC15(c *Ctx, p *Prog, r *Result) {
 		}}}}
 		f := NewFlow(p, rs, []*ssa.Function{root}, nil)
 		r.useFlow(f)
-		for _, call := range f.CallSites(func(cal Callee, _ ssa.CallInstruction) bool { return cal.Name == "fdo/serviceinfo.Producer.ServiceInfo" }) {
+		for _, call := range f.CallSites(func(cal Callee, _ ssa.CallInstruction) bool {
+			return cal.Name == "fdo/serviceinfo.Producer.ServiceInfo"
+		}) {
 			fn := call.Parent()
 			m := f.matcherFor(fn)
 			for i, sr := range f.successReturns(fn, fn.Signature.Results().Len()-1) {
@@ -878,7 +882,9 @@ func checkC15(c *Ctx, p *Prog, r *Result) {
 			return ok && bo.Op == token.SUB && rawKey(m, bo.Y)
 		}}}}
 		f := NewFlow(p, rs, []*ssa.Function{rc}, func(g *ssa.Function) bool { return g != rc })
-		reads := f.CallSites(func(cal Callee, call ssa.CallInstruction) bool { return cal.Name == "io.ReadFull" && call.Parent() == rc })
+		reads := f.CallSites(func(cal Callee, call ssa.CallInstruction) bool {
+			return cal.Name == "io.ReadFull" && call.Parent() == rc
+		})
 		r.requireAtSites(f, "C15.readchunk-overhead", reads, []Atom{"room-for-value"})
 		m := f.matcherFor(rc)
 		for _, call := range reads {
